@@ -296,6 +296,10 @@ func NewReporter(opts Options) (Reporter, error) {
 		internalTags[k] = v
 	}
 
+	// n.b. Values may be reported before timeLoop gets to run; they must not
+	//      carry the zero timestamp.
+	r.now.Store(time.Now().UnixNano())
+
 	r.batchSizeHistogram = r.AllocateHistogram("tally.internal.batch-size", internalTags, buckets)
 	r.numBatchesCounter = r.AllocateCounter("tally.internal.num-batches", internalTags)
 	r.numMetricsCounter = r.AllocateCounter("tally.internal.num-metrics", internalTags)
